@@ -371,6 +371,8 @@ def check(run):
     # ---- R7
     raw_reads(run, ix, ef, "R7", "C10", module_filter=lambda m: m.startswith("trimesh.scene"), floor=0)
     run.assume("geometry kinds = in-repo subclasses of parent.Geometry (class table from the index)")
+    from ..scenerecert import recert_rule
+    recert_rule(run, ix, "R10", "C10")
     return {
         "explanation": "Footprints of the cached scene producers against Scene.__hash__; write effects rooted at the source scene for "
         "every copying / converting / exporting operation (interprocedural, callee summaries substituted); structural checks that "
